@@ -309,3 +309,30 @@ pub fn iter_step_total(first: u8, rest: [u8; 11], len: usize, small: bool) -> u3
     core::mem::forget(it);
     f
 }
+
+// NOTE: a Kani obligation over ApplicationClose / ConnectionClose::encode with symbolic reason length and room did not
+// finish within the quick cap (Vec + Bytes with symbolic lengths); the budget arithmetic is decided by the E2 query
+// e2_application_close_encode_budget over the MIR instead.
+
+/// Native replay body for the E2 query `e2_application_close_encode_budget` (C13 / C10): the real
+/// `ApplicationClose::encode` with an error code, a reason of `reason_len` bytes and `max_len` bytes of room
+/// (at least 26, as at the call site in `poll_transmit`) writes at most `max_len` bytes, and what it writes
+/// decodes to the same code and a prefix of the reason.
+pub fn close_encode_budget_native(code: u64, reason_len: u16, max_len: u16) -> u32 {
+    if code >= V62 || max_len < 26 {
+        return 0;
+    }
+    let reason = Bytes::from(vec![0x61u8; reason_len as usize]);
+    let mut out: Vec<u8> = Vec::new();
+    ApplicationClose { error_code: vi(code), reason: reason.clone() }.encode(&mut out, max_len as usize);
+    assert!(out.len() <= max_len as usize, "APPLICATION_CLOSE of {} bytes written into {} bytes of room", out.len(), max_len);
+    let mut it = Iter::new(Bytes::from(out)).ok().expect("non-empty payload");
+    match it.next() {
+        Some(Ok(Frame::Close(Close::Application(x)))) => {
+            assert!(x.error_code == vi(code), "error code changed in transit");
+            assert!(x.reason.len() <= reason.len() && x.reason[..] == reason[..x.reason.len()], "reason is not a prefix of the original");
+        }
+        _ => panic!("the encoder's own output does not decode as APPLICATION_CLOSE"),
+    }
+    1
+}
